@@ -260,8 +260,7 @@ def groups(thorough, seed):
     # exhaustive: every sequence of k free events after a warm-up, small alphabet
     g.append(("exh-all", dict(warm="all", alpha="small", steps=8 + (3 if thorough else 2), defer=5, addpath=False, exh=True)))
     g.append(("exh-rtc", dict(warm="rtc", alpha="small", steps=7 + 2, defer=0, addpath=False, exh=True)))
-    if thorough:
-        g.append(("exh-vrf", dict(warm="vrf", alpha="small", steps=4 + 3, defer=5, addpath=False, exh=True)))
+    g.append(("exh-vrf", dict(warm="vrf", alpha="small", steps=4 + 2, defer=5, addpath=False, exh=True)))
     g.append(("exh-cold", dict(warm="none", alpha="small", steps=4 if thorough else 3, defer=5, addpath=False, exh=True)))
     # two VPN routes (different RD) with one IP prefix, both / one / none imported by the CE's VRF
     g.append(("exh-coll", dict(warm="vrf", alpha="coll", steps=4 + (4 if thorough else 3), defer=0, addpath=False, exh=True,
@@ -288,32 +287,35 @@ def main(run):
             behs = dedupe(behs)
         if not behs:
             continue
-        traces = execute_sharded(run, behs, "c17-" + batch, 4)
+        traces = execute_sharded(run, behs, "c17-" + batch, 6 if thorough else 4)
         validate_group(run, traces, behs, batch)
         if run.violations:
             break
 
 
 RULE = ("schedules = TLC -simulate walks of VrfRtcGen.tla after forced warm-up prefixes (sessions; VRF + CE; routes + "
-        "memberships + End-of-RIB; all of them) over the full alphabet (VPN route announce/withdraw with any subset of "
-        "{rt1,rt2,rt3,nt1(non-transitive)}, membership announce/withdraw for rt1..rt3 and the default 0:0:0/0 with two "
-        "origin AS (and ADD-PATH ids in one group), RTC End-of-RIB, VRF add/delete in two configurations each, CE up/"
-        "down/announce/withdraw, AddPath/DeletePath with VRF id, session down/up, Tick), plus the EXHAUSTIVE "
-        "enumeration by TLC of every sequence of 2-3 free events over a small alphabet after a warm-up and of every "
-        "cold sequence of 3-4 events; executed on the real BgpServer in virtual time with three scripted neighbours; "
-        "after every step at exact quiescence ListVrf, ListPath(VRF), the global VPNv4 table and the decoded wire "
-        "views of the RTC, VPN and CE neighbours are compared by TLC with the property layer. non-trivial = distinct "
-        "(VPN routes, memberships, VRFs, sessions, waiting) states with a VPN route and (a membership at the RTC "
-        "neighbour or a VRF)")
+        "memberships + End-of-RIB; all of them) over the full alphabet (VPN route announce/withdraw for three VPN NLRIs - "
+        "two of them with the same IP prefix under different RDs - with any subset of {rt1,rt2,rt3,nt1(non-transitive)}, "
+        "membership announce/withdraw for rt1..rt3 and the default 0:0:0/0 with two origin AS (and ADD-PATH ids in one "
+        "group), RTC End-of-RIB, VRF add/delete in two configurations each, CE up/down/announce/withdraw, AddPath/"
+        "DeletePath with VRF id, session down/up, Tick), plus the EXHAUSTIVE enumeration by TLC (breadth-first) of every "
+        "sequence of 2-3 free events over a small alphabet after each warm-up, of every cold sequence of 3-4 events and "
+        "of every sequence of 3-4 announce/withdraw/CE-restart events on the two colliding VPN NLRIs; executed on the "
+        "real BgpServer in virtual time with three scripted neighbours; after every step at exact quiescence ListVrf, "
+        "ListPath(VRF), the global VPNv4 table and the decoded wire views of the RTC, VPN and CE neighbours are compared "
+        "by TLC with the property layer. non-trivial = distinct (VPN routes, memberships, VRFs, sessions, waiting) states "
+        "with a VPN route and (a membership at the RTC neighbour or a VRF)")
 LEVEL = "model_checking"
 ASSUMPTIONS = [
-    "the property layer of VrfRtc.tla (Imports, VrfVisible, CeExport, VrfOriginatedExport, RtcExport) is my "
+    "the property layer of VrfRtc.tla (Imports, VrfVisible, CeExport/CeOk, VrfOriginatedExport, RtcExport) is my "
     "transcription of the property text / RFC 4364 4.3 / RFC 4684 6",
     "VPNv4 (l3vpn-ipv4-unicast) only: EVPN, VPNv6, flowspec-VPN and MUP are not exercised",
-    "one path per VPN NLRI (distinct RDs per source) and distinct IP prefixes per RD: best-path selection among "
-    "VPN paths and the collision of two VPN routes on one plain prefix at a CE are outside this check",
+    "one path per VPN NLRI (distinct RDs per source): best-path selection among the paths of one VPN NLRI is outside "
+    "this check; when two imported VPN routes share an IP prefix the CE must hold one of them, which one is free",
     "no import/export policy ('accepted' membership = received membership); no graceful restart on the sessions",
     "while the RTC End-of-RIB wait lasts only 'nothing unrequested is sent' is required (the property text is silent)",
     "the MPLS label of a VRF is set white box (it is allocated through zebra in production)",
+    "traces the registered known findings can touch (decided by a model-only TLC scan) must equal, step by step, the "
+    "mechanism model with exactly those defects switched on (C17_*_KF); all other traces are validated strictly",
     "harness projection harness/c17 (NLRI / extended communities <-> abstract records) is trusted",
 ]
